@@ -8,6 +8,7 @@ import (
 	"log/slog"
 	"net/http"
 	"net/url"
+	"slices"
 	"strconv"
 
 	"github.com/opencontainers/go-digest"
@@ -88,7 +89,10 @@ func (reg *Reg) ManifestGet(ctx context.Context, r ref.Ref) (manifest.Manifest, 
 	if r.Digest != "" {
 		rCache := r.SetDigest(r.Digest)
 		if m, err := reg.cacheMan.Get(rCache); err == nil {
-			return m, nil
+			// hand out a copy, callers are free to modify the manifest they receive
+			if mCopy, err := manifestCopy(m); err == nil {
+				return mCopy, nil
+			}
 		}
 		tagOrDigest = r.Digest
 	} else if r.Tag != "" {
@@ -151,7 +155,9 @@ func (reg *Reg) ManifestGet(ctx context.Context, r ref.Ref) (manifest.Manifest, 
 		return nil, err
 	}
 	rCache := r.SetDigest(m.GetDescriptor().Digest.String())
-	reg.cacheMan.Set(rCache, m)
+	if mCopy, err := manifestCopy(m); err == nil {
+		reg.cacheMan.Set(rCache, mCopy)
+	}
 	return m, nil
 }
 
@@ -162,7 +168,10 @@ func (reg *Reg) ManifestHead(ctx context.Context, r ref.Ref) (manifest.Manifest,
 	if r.Digest != "" {
 		rCache := r.SetDigest(r.Digest)
 		if m, err := reg.cacheMan.Get(rCache); err == nil {
-			return m, nil
+			// hand out a copy, callers are free to modify the manifest they receive
+			if mCopy, err := manifestCopy(m); err == nil {
+				return mCopy, nil
+			}
 		}
 		tagOrDigest = r.Digest
 	} else if r.Tag != "" {
@@ -271,7 +280,9 @@ func (reg *Reg) ManifestPut(ctx context.Context, r ref.Ref, m manifest.Manifest,
 	}
 
 	rCache := r.SetDigest(m.GetDescriptor().Digest.String())
-	reg.cacheMan.Set(rCache, m)
+	if mCopy, err := manifestCopy(m); err == nil {
+		reg.cacheMan.Set(rCache, mCopy)
+	}
 
 	// update referrers if defined on this manifest
 	if mr, ok := m.(manifest.Subjecter); ok {
@@ -292,4 +303,22 @@ func (reg *Reg) ManifestPut(ctx context.Context, r ref.Ref, m manifest.Manifest,
 	}
 
 	return nil
+}
+
+// manifestCopy returns an independent manifest built from the raw body of m.
+// The cache must not share a manifest with callers since the setters modify it in place.
+func manifestCopy(m manifest.Manifest) (manifest.Manifest, error) {
+	raw, err := m.RawBody()
+	if err != nil {
+		return nil, err
+	}
+	opts := []manifest.Opts{
+		manifest.WithRef(m.GetRef()),
+		manifest.WithDesc(m.GetDescriptor()),
+		manifest.WithRaw(slices.Clone(raw)),
+	}
+	if header, err := m.RawHeaders(); err == nil && header != nil {
+		opts = append(opts, manifest.WithHeader(header.Clone()))
+	}
+	return manifest.New(opts...)
 }
